@@ -52,6 +52,16 @@ Readings of the statement fixed here (see the final report of the build):
    at a size ..."); only cursor-report asks a never-rendered tree ("reports without rendering").
  * cursor clauses and move-cursor are evaluated when the focus leaf is an Edit / SelectableIcon / Button /
    CheckBox (quantifier: "focus chain implements the cursor protocol"); the mouse clauses for every tree.
+
+Scope: the generated one- / two- / three-container trees (level1 / next_level), a few curated trees, and the
+*uneven-height* family (uneven(), always run in full): SelectableIcon / Button / CheckBox / a one-row Edit, bare
+and under every stack of <= 2 decorations (AttrMap, Padding x4, BoxAdapter(Filler) top / middle / bottom,
+LineBox), as the short child of Columns (given / weight / pack width, left / right / middle, box column under a
+Filler, next to a selectable and to an unselectable taller sibling, nested in a Pile / Columns / AttrMap /
+GridFlow, either initial focus) and as Pile children of different heights.  These are the trees in which some
+rows of the rendered area belong to no widget of the addressed column, so that the move-cursor clause depends
+on *who* refuses the row: the container, the decoration (Padding and BoxAdapter always have the method and
+never look at the row; AttrMap has it iff its child has) or the leaf (SelectableIcon has none).
 """
 from __future__ import annotations
 
@@ -552,7 +562,8 @@ def eval_size(desc, size, dr, tallies, press=True, cells=None):
 
 
 def eval_tree(args):
-    desc, policy, seedint = args
+    desc, policy, seedint, *rest = args
+    press = rest[0] if rest else True  # False: the tree is there for the cursor / move clauses, the press clause is skipped
     tallies = {c: Tally() for c in CLAUSES}
     with _Utf8():
         try:
@@ -579,7 +590,7 @@ def eval_tree(args):
             fits.append(size)
             stats["sizes_fit"] += 1
             tallies["fitting-render"].case(True, None, True, {"tree": source(desc), "size": list(size)})
-            eval_size(desc, size, dr, tallies)
+            eval_size(desc, size, dr, tallies, press=press)
             return True
 
         if fixed_ok:
@@ -728,16 +739,109 @@ CURATED = [
 ]
 
 
+# ------------------------------------------------------------------------------------------------
+# Uneven heights (always included, both tiers).  The move-cursor clause ("succeeds exactly when the wrapped
+# widget accepts the correspondingly translated cell, and afterwards the reported cursor is on the requested
+# row") has cells that no single child covers only where siblings differ in height: the rows of a Columns
+# below a short column, the rows of a box column / BoxAdapter around a Filler above and below the Filler's
+# child.  Who has to refuse such a row depends on who *can*: SelectableIcon has no move_cursor_to_coords,
+# AttrMap answers hasattr() as its child does, Padding / BoxAdapter always have the method and pass the row
+# through (or answer True) without looking at it, Button / CheckBox / LineBox have it through their inner
+# Columns / Pile.  So every cursor-less-protocol leaf is put under every decoration stack of depth <= 2 and
+# used as the short child next to taller siblings, at every position, under every width option.
+E3R = ["edit", "", "a\nb\nc", 0]  # 3 rows, 2 columns
+E4R = ["edit", "", "k\nl\nm\nn", 5]  # 4 rows, cursor on the third
+
+
+def _pad(x, i):
+    a, w, l, r, m = (("left", ["relative", 100], 1, 1, None), ("center", "pack", 0, 0, None), ("right", "pack", 0, 1, None), ("left", ["relative", 100], 0, 0, None))[i]
+    if w == "pack" and next(_leaf_descs(x))[0] == "edit":
+        w = _need_cols(x)  # an Edit packs to its text without the column for the cursor after the last character
+    return ["padding", x, a, w, l, r, m]
+
+
+def _fil(x, valign, h):
+    return ["boxadapter", ["filler", x, valign, "pack", 0, 0, None], h]  # a flow widget of h rows, x on one of them
+
+
+def decorated(x):
+    """x bare and under the decoration stacks of depth <= 2 (all one row high unless noted)."""
+    yield x
+    yield ["attr", x]
+    yield _pad(x, 0)
+    yield _pad(x, 1)
+    yield _pad(["attr", x], 2)
+    yield ["attr", _pad(x, 3)]
+    yield _pad(_pad(x, 2), 0)
+    yield ["attr", ["attr", x]]
+    yield _fil(x, "middle", 3)  # 3 rows, x on the second
+    yield _fil(_pad(x, 3), "bottom", 2)  # 2 rows, x on the second
+    yield _pad(_fil(x, "top", 2), 3)  # 2 rows, x on the first
+    yield ["linebox", x]  # 3 rows, x on the second
+
+
+def _need_cols(d):
+    """Columns the subtree needs at least (for choosing a given width); generous by the margins."""
+    k = d[0]
+    if k in LEAF_KINDS:
+        return leaf_need(d)[0]
+    if k == "padding":
+        return _need_cols(d[1]) + d[4] + d[5]
+    if k == "linebox":
+        return _need_cols(d[1]) + 2
+    return _need_cols(d[1])
+
+
+def uneven(full=False):
+    """quick: every decoration stack around SelectableIcon under every container shape; around Button,
+    CheckBox and a one-row Edit (which bring their own move_cursor_to_coords) four stacks under the basic
+    shapes.  full: all."""
+    out = []
+    for x in (IC, BT, CB, E1):
+        for n, s in enumerate(decorated(x)):
+            if not full and x is not IC and n not in (0, 2, 5, 8):
+                continue
+            boxad = "boxadapter" in json.dumps(s)  # a BoxAdapter (like an Edit) is a flow widget only: no 'pack' column for it
+            g = ["given", _need_cols(s)]
+            w1 = ["weight", 1]
+            # the short child left / right of a taller Edit, under given / weight / pack widths, both initial foci
+            out.append(["columns", [[g, s, False], [w1, E4R, False]], 1, 0])
+            out.append(["columns", [[g, s, False], [w1, E4R, False]], 0, 1])
+            out.append(["columns", [[w1, E4R, False], [g if boxad or x is E1 else "pack", s, False]], 2, 0])
+            out.append(["columns", [[["weight", 3], s, False], [w1, E3R, False]], 1, None])
+            # no weight column: the Columns declares FIXED sizing and is also asked at the size () (pack columns sized ())
+            out.append(["columns", [[g if boxad or x is E1 else "pack", s, False], [["given", 3], E4R, False]], 1, 1])
+            # the taller neighbour is not selectable: the short child is the nearest selectable for every cell
+            out.append(["columns", [[["given", 2], T3, False], [w1, s, False]], 0, None])
+            # the Columns is itself a child (rows shifted), the focus starts outside it
+            out.append(["pile", [["pack", TX], ["pack", ["columns", [[g, s, False], [w1, E3R, False]], 1, 1]], ["pack", E1]], 2, False])
+            # the short child as a box column under a Filler (the Filler gets the rows of the tallest column)
+            out.append(["columns", [[g, ["filler", s, "middle", "pack", 0, 0, None], True], [w1, E4R, False]], 1, None])
+            # children of a Pile of uneven height: every row belongs to exactly one child
+            out.append(["pile", [["pack", s], ["pack", E3R], [["given", 3], ["filler", s, "bottom", "pack", 0, 0, None]]], 1, False])
+            if x is IC or (full and x is E1):  # (the wider Button / CheckBox do not fit three abreast in 12 columns)
+                out.append(["columns", [[w1, E3R, False], [g, s, False], [w1, E4R, False]], 1, 2])
+                # the short column is a container of two rows / a row of two
+                out.append(["columns", [[g, ["pile", [["pack", s], ["pack", IC]], None, False], False], [w1, E4R, False]], 1, 1])
+                out.append(["columns", [[["given", _need_cols(s) + 4], ["columns", [[g, s, False], [["given", 3], IC, False]], 1, None], False], [w1, E3R, False]], 0, None])
+                out.append(["columns", [[g, ["attr", ["columns", [[w1, s, False]], 0, None]], False], [w1, E3R, False]], 1, 1])
+                out.append(["gridflow", [s, E3R, IC], max(_need_cols(s), 3), 1, 0, "left", 1])
+    return _dedup(out)
+
+
 def _plan(tier, seed):
     r = rng(seed)
     l1 = _dedup(level1())
     l2 = _dedup(next_level(l1))
     tasks = [(t, 2, seed * 100003 + 990000 + i) for i, t in enumerate(CURATED)]
+    un = uneven(full=tier != "quick")
+    # quick: the press clause is skipped for these trees (mouse-hit, the cursor clauses and move-cursor are judged)
+    tasks += [(t, 1, seed * 100003 + 800000 + i, False) if tier == "quick" else (t, "all", seed * 100003 + 800000 + i) for i, t in enumerate(un)]
     if tier == "quick":
         tasks += [(t, 1, seed * 100003 + i) for i, t in enumerate(l1)]
         pick = r.sample(range(len(l2)), 350)
         tasks += [(l2[i], 1, seed * 100003 + 50000 + i) for i in sorted(pick)]
-        desc = f"{len(CURATED)} curated trees; all {len(l1)} one-container trees at their smallest fitting size + 1 seeded larger size; 350 of {len(l2)} two-container trees (seeded sample) at the smallest fitting size + 1 larger"
+        desc = f"{len(CURATED)} curated trees; {len(un)} uneven-height trees (decorated SelectableIcon / Button / CheckBox / one-row Edit as the short child of Columns / Pile / GridFlow next to taller siblings) at the smallest fitting size + 1 larger, press clause skipped; all {len(l1)} one-container trees at their smallest fitting size + 1 seeded larger size; 350 of {len(l2)} two-container trees (seeded sample) at the smallest fitting size + 1 larger"
     else:
         tasks += [(t, "all", 0) for t in l1]
         tasks += [(t, 1, seed * 100003 + 50000 + i) for i, t in enumerate(l2)]
@@ -748,7 +852,7 @@ def _plan(tier, seed):
         pick = sorted(r.sample(range(len(l3)), min(len(l3), 2000)))
         tasks += [(l3[i], 1, seed * 100003 + 900000 + i) for i in pick]
         l3n = len(pick)
-        desc = f"{len(CURATED)} curated trees; all {len(l1)} one-container trees at every fitting size; all {len(l2)} two-container trees at the smallest fitting size + 1 seeded larger; {l3n} three-container trees (seeded sample) at the smallest fitting size + 1 larger"
+        desc = f"{len(CURATED)} curated trees; {len(un)} uneven-height trees at every fitting size; all {len(l1)} one-container trees at every fitting size; all {len(l2)} two-container trees at the smallest fitting size + 1 seeded larger; {l3n} three-container trees (seeded sample) at the smallest fitting size + 1 larger"
     return tasks, desc
 
 
